@@ -188,7 +188,7 @@ fn c16_q_roundtrip_str_writer() {
 #[cfg_attr(kani, kani::proof)]
 #[cfg_attr(kani, kani::unwind(14))]
 #[cfg_attr(not(kani), test)]
-fn c16_t_roundtrip_struct_two_members() {
+fn c16_x_roundtrip_struct_two_members() {
     let mut buf = [0u8; 12];
     let a = any_u16();
     let b = any_u8();
@@ -210,7 +210,7 @@ fn c16_t_roundtrip_struct_two_members() {
 #[cfg_attr(kani, kani::proof)]
 #[cfg_attr(kani, kani::unwind(12))]
 #[cfg_attr(not(kani), test)]
-fn c16_t_reencode_single_element_6() {
+fn c16_x_reencode_single_element_6() {
     let b: [u8; 6] = any_bytes::<6>();
     let len = any_usize();
     assume(len >= 1 && len <= 6);
@@ -247,7 +247,7 @@ fn c16_t_reencode_single_element_6() {
 #[cfg_attr(kani, kani::proof)]
 #[cfg_attr(kani, kani::unwind(9))]
 #[cfg_attr(not(kani), test)]
-fn c16_t_reencode_container_6() {
+fn c16_x_reencode_container_6() {
     let b: [u8; 6] = any_bytes::<6>();
     let len = any_usize();
     assume(len >= 2 && len <= 6);
@@ -277,4 +277,65 @@ fn c16_t_reencode_container_6() {
         vassert!(out[i] == b[i], "ROLE:reencode-same-bytes");
         i += 1;
     }
+}
+
+/// Floats round-trip bit for bit (NaN payloads, infinities, signed zero and denormals included).
+#[cfg_attr(kani, kani::proof)]
+#[cfg_attr(kani, kani::unwind(20))]
+#[cfg_attr(not(kani), test)]
+fn c16_q_roundtrip_ctx_floats() {
+    let tag = TLVTag::Context(any_u8());
+    {
+        let bits = any_u32();
+        let mut buf = [0u8; 12];
+        let mut wb = WriteBuf::new(&mut buf);
+        vok!(wb.f32(&tag, f32::from_bits(bits)), "write-into-large-enough-buffer-succeeds");
+        let len = wb.get_tail();
+        vassert!(len == 6, "ROLE:f32-encoding-is-control+tag+4-bytes");
+        let e = TLVElement::new(&buf[..len]);
+        vassert!(e.tag().ok() == Some(tag.clone()), "ROLE:tag-roundtrip");
+        vassert!(e.f32().ok().map(|x| x.to_bits()) == Some(bits), "ROLE:f32-roundtrip-bit-exact");
+        vassert!(e.f64().is_err() && e.u32().is_err(), "ROLE:f32-element-is-not-read-as-another-type");
+    }
+    {
+        let bits = any_u64();
+        let mut buf = [0u8; 12];
+        let mut wb = WriteBuf::new(&mut buf);
+        vok!(wb.f64(&tag, f64::from_bits(bits)), "write-into-large-enough-buffer-succeeds");
+        let len = wb.get_tail();
+        vassert!(len == 10, "ROLE:f64-encoding-is-control+tag+8-bytes");
+        let e = TLVElement::new(&buf[..len]);
+        vassert!(e.f64().ok().map(|x| x.to_bits()) == Some(bits), "ROLE:f64-roundtrip-bit-exact");
+        vassert!(e.f32().is_err() && e.u64().is_err(), "ROLE:f64-element-is-not-read-as-another-type");
+    }
+}
+
+/// A structure encoded through the DERIVED encoder decodes back to an equal value through the
+/// derived decoder: the Interaction Model's TimedRequest (a mandatory u16 + an optional u8 under
+/// the 0xFF context tag), every field value, with and without the optional member, under an
+/// anonymous or a context tag.
+#[cfg_attr(kani, kani::proof)]
+#[cfg_attr(kani, kani::unwind(20))]
+#[cfg_attr(not(kani), test)]
+fn c16_q_derived_struct_roundtrip_timed_req() {
+    use crate::im::TimedReq;
+    use crate::tlv::{FromTLV, ToTLV};
+    let v = TimedReq {
+        timeout: any_u16(),
+        interaction_model_revision: if any_bool() { Some(any_u8()) } else { None },
+    };
+    let tag = if any_bool() { TLVTag::Anonymous } else { TLVTag::Context(any_u8()) };
+    let mut buf = [0u8; 16];
+    let mut wb = WriteBuf::new(&mut buf);
+    vok!(v.to_tlv(&tag, &mut wb), "write-into-large-enough-buffer-succeeds");
+    let len = wb.get_tail();
+    let e = TLVElement::new(&buf[..len]);
+    let back = TimedReq::from_tlv(&e);
+    vassert!(back.is_ok(), "ROLE:derived-encoding-decodes");
+    if let Ok(b) = back {
+        vassert!(b.timeout == v.timeout, "ROLE:derived-struct-mandatory-member-roundtrip");
+        vassert!(b.interaction_model_revision == v.interaction_model_revision, "ROLE:derived-struct-optional-member-roundtrip");
+    }
+    vassert!(buf[len - 1] == 0x18, "ROLE:derived-struct-ends-with-end-of-container");
+    vcover!(v.interaction_model_revision.is_some() && len > 8);
 }
